@@ -569,7 +569,10 @@ func SM2P12Encrypt(certificate *x.Certificate, pwd string, priv *sm2.PrivateKey,
 	return err
 }
 func SM2P12Decrypt(fileName string, pwd string) (*x.Certificate, *sm2.PrivateKey, error) {
-	pfxData, _ := ioutil.ReadFile(fileName)
+	pfxData, err := ioutil.ReadFile(fileName)
+	if err != nil {
+		return nil, nil, err
+	}
 	pv, cer, err := DecodeAll(pfxData, pwd)
 	if err != nil {
 		return nil, nil, err
@@ -595,5 +598,5 @@ func SM2P12Decrypt(fileName string, pwd string) (*x.Certificate, *sm2.PrivateKey
 	default:
 		return nil, nil, errors.New("unexpected type for p12 private key")
 	}
-	return nil,nil,nil
+	return nil, nil, errors.New("pkcs12: the private key is not an SM2 key")
 }
